@@ -58,6 +58,15 @@ def worker_env(build_dir, wrap_dir):
     return env
 
 
+def _die_with_parent():
+    try:
+        import ctypes
+        import signal
+        ctypes.CDLL("libc.so.6").prctl(1, signal.SIGKILL)     # PR_SET_PDEATHSIG
+    except Exception:
+        pass
+
+
 class Worker(object):
     def __init__(self, module, tier, build_dir, wrap_dir):
         self.args = [PY, "-u", WORKER, "serve", module, tier]
@@ -68,7 +77,8 @@ class Worker(object):
     def start(self):
         self.log = tempfile.TemporaryFile(mode="w+")
         self.proc = subprocess.Popen(self.args, stdin=subprocess.PIPE, stdout=subprocess.PIPE,
-                                     stderr=self.log, env=self.env, text=True, bufsize=1)
+                                     stderr=self.log, env=self.env, text=True, bufsize=1,
+                                     preexec_fn=_die_with_parent)
         line = self.proc.stdout.readline()
         if not line:
             self.log.seek(0)
